@@ -230,8 +230,11 @@ def check(model: Model, run: Run) -> None:
     actions = xl.from_value(lambda v: any(isinstance(x, ast.Constant) and x.value in ('announce', 'withdraw') for x in ast.walk(v)) and not isinstance(v, ast.JoinedStr))
     ALL = ['INIT', 'DISABLED', 'RISING', 'FALLING', 'UP', 'DOWN', 'EXIT', 'END']
 
+    comm_vars = set(xl.from_value(lambda v: dotted(v) in ('options.community', 'options.disabled_community')))
+    CUR: dict = {}
+
     def ev(t: ast.expr, tgt: str, wod: bool):
-        """True / False / None (does not depend on the target or withdraw_on_down)"""
+        """True / False / None (does not depend on the target, withdraw_on_down or the community options)"""
         if isinstance(t, ast.BoolOp):
             vals = [ev(v, tgt, wod) for v in t.values]
             if isinstance(t.op, ast.And):
@@ -242,6 +245,12 @@ def check(model: Model, run: Run) -> None:
             return None if v is None else not v
         if dotted(t) == 'options.withdraw_on_down':
             return wod
+        if dotted(t) in ('options.community', 'options.disabled_community') and 'opts' in CUR:
+            return CUR['opts'][dotted(t).split('.')[1]]
+        if isinstance(t, ast.Name) and t.id in comm_vars and 'opts' in CUR:
+            return CUR['opts'].get(CUR.get('comm'), False)
+        if isinstance(t, ast.Compare) and len(t.ops) == 1 and isinstance(t.ops[0], (ast.Eq, ast.NotEq)) and dotted(t.left) in actions and isinstance(t.comparators[0], ast.Constant) and 'action' in CUR:
+            return (CUR['action'] == t.comparators[0].value) == isinstance(t.ops[0], ast.Eq)
         if isinstance(t, ast.Name) and xl.single(t.id) is not None:
             return ev(xl.single(t.id), tgt, wod)
         if isinstance(t, ast.Compare) and len(t.ops) == 1 and dotted(t.left) == tpar:
@@ -286,11 +295,28 @@ def check(model: Model, run: Run) -> None:
             elif isinstance(st, (ast.For, ast.While)):
                 if walk_x(st.body, tgt, wod, st_):
                     return True
-            elif isinstance(st, ast.Assign) and dotted(st.targets[0]) in actions:
+            elif isinstance(st, (ast.Assign, ast.AnnAssign)) and dotted(st.targets[0] if isinstance(st, ast.Assign) else st.target) in actions:
                 a = value(st.value, tgt, wod)
                 if a is None:
                     raise Undecidable('action value not understood: %s' % norm(st.value)[:60])
                 st_['action'] = a
+                CUR['action'] = a
+            elif isinstance(st, (ast.Assign, ast.AnnAssign)) and st.value is not None and dotted(st.targets[0] if isinstance(st, ast.Assign) else st.target) in comm_vars:
+                e = st.value
+                while isinstance(e, ast.IfExp):
+                    v = ev(e.test, tgt, wod)
+                    if v is None:
+                        break
+                    e = e.body if v else e.orelse
+                d = dotted(e) or ''
+                if d in ('options.community', 'options.disabled_community'):
+                    CUR['comm'] = d.split('.')[1]
+                elif isinstance(e, ast.Name) and e.id in comm_vars:
+                    pass
+                else:
+                    CUR['comm'] = None
+            elif isinstance(st, ast.Assign) and isinstance(st.value, ast.JoinedStr) and any(isinstance(v, ast.Constant) and str(v.value).endswith(' community [ ') and not str(v.value).endswith('-community [ ') for v in st.value.values):
+                st_.setdefault('emitted', set()).add(CUR.get('comm'))
             elif isinstance(st, ast.Expr) and isinstance(st.value, ast.Call) and dotted(st.value.func) == 'sys.stdout.write':
                 st_['wrote'].add(st_.get('action'))
             elif isinstance(st, (ast.Continue, ast.Break)):
@@ -306,6 +332,27 @@ def check(model: Model, run: Run) -> None:
             return {'withdraw'}
         return {'withdraw'} if wod else {'announce'}
 
+    def want_comm(tgt: str, wod: bool, c: bool, d: bool) -> set:
+        if want_action(tgt, wod) != {'announce'}:
+            return set()
+        if tgt in ('DOWN', 'DISABLED') and d:
+            return {'disabled_community'}
+        return {'community'} if c else set()
+
+    if len(actions) == 1 and comm_vars:
+        for tgt in ('UP', 'DOWN', 'DISABLED'):
+            for wod in (False, True):
+                for c_, d_ in itertools.product((False, True), (False, True)):
+                    CUR.clear()
+                    CUR['opts'] = {'community': c_, 'disabled_community': d_}
+                    stt = {'wrote': set()}
+                    try:
+                        walk_x(exa.node.body, tgt, wod, stt)
+                    except Undecidable:
+                        continue
+                    got_c = {x for x in stt.get('emitted', set()) if x}
+                    run.check(got_c == want_comm(tgt, wod, c_, d_), exa.qualname, 'target=%s withdraw_on_down=%s community=%s disabled-community=%s announces community %s' % (tgt, wod, 'set' if c_ else 'unset', 'set' if d_ else 'unset', sorted(got_c) or 'none'), exa.loc(), 'DOWN / DISABLED announcements carry the disabled community when one is configured, every announcement carries the community otherwise (expected %s)' % (sorted(want_comm(tgt, wod, c_, d_)) or 'none'))
+    CUR.clear()
     if len(actions) != 1:
         run.cannot('exabgp(): the local holding the action (announce / withdraw) was not found')
     else:
